@@ -10,7 +10,7 @@ import wire
 from props.common import quiet_ccp
 
 ID = "C11"
-LEAN_MODULES = ["Ccp.Props.C11"]
+LEAN_MODULES = ["Ccp.Props.C11", "Ccp.Props.RxC11"]
 RULE = ("(ip,len) pairs: ip from a boundary pool (0, 1, max, max-1, all-ones / single-one octets and groups, 2^k, 2^k-1, "
         "::ffff:a.b.c.d, addresses whose compressed form has a leading / trailing / bare / inner '::', two equal zero runs) "
         "or uniform random; len from {0,1,7,8,9,16,23,24,30,31,32} (v4) / {0,1,7,16,63,64,65,96,112,126,127,128} (v6) or uniform. "
@@ -67,6 +67,7 @@ LEVEL_NOTE = ("Trusted: Lean kernel; axioms propext/Classical.choice/Quot.sound 
               "the stdlib IPv6 parser model is additionally proved sound and complete for the RFC 4291 grammar written in Spec/IP.lean, "
               "its printer model (_compress_hextets) proved to produce exactly the RFC 5952 text written there; the renderings are proved against "
               "positional-numeral predicates (width / digits / value) of the same file, which the oracle also evaluates on the implementation's answers.")
+LEVEL_NOTE += (" " + "regexes_as_modelled (Ccp.RxC11): the regex calls of IPv4Obj.__init__ and IPv6Obj.__init__ with their pattern texts and flags (_RGX_IPV4ADDR_WITH_MASK and _RGX_IPV6ADDR = _IPV6_REGEX_STR with _IPV6_RGX_CLS substituted, both re.VERBOSE, compared in canonical verbose form; the three in-line IPv4 checks; the \\s+ split and the '/' join) are re-read from /repo's AST on every run (harness/rxscan.py) and proved equal to the literals the automata matchV4 / matchV6 / fullDigits / fullQuad / searchQuad / splitWs were written for, so an edit of one of these regexes breaks an obligation of this check (the regex -> automaton step itself stays modelled, measured by the correspondence).")
 EXHAUSTIVE = {"quick": False, "thorough": False}
 ASSUMPTIONS = [
     "ipaddress (CPython 3.12) parsing/rendering is re-implemented in the model; agreement measured by three-way correspondence",
